@@ -262,6 +262,37 @@ def cases(thorough):
         out.append(["grid", p])
     for p in grid(T=[1, 2, 3, 5, 8], N=[1, 2, 3]):
         out.append(["data", p])
+    # scale: sizes just above internal block sizes / narrow integer limits
+    # (quick: the 129 row only, the rest in the thorough tier)
+    for L in ((129, 257, 300) if thorough else (129,)):
+        for p in grid(L=[L], mode=["threshold", "local_recurrence_rate",
+                                   "adaptive_neighborhood_size"],
+                      val=[0.5], nan=[0, 1]):
+            out.append(["rp", p])
+        out.append(["rp", dict(L=L, mode="threshold", sparse=1, md=3)])
+        out.append(["vg", dict(L=L, horizontal=0, nan=1)])
+        out.append(["crp", dict(Lx=L, Ly=131, mode="threshold")])
+    big = thorough
+    for p in grid(N=[3, 17], T=[129, 257] if big else [129],
+                  which=["pearson", "mi"], bins=[32]):
+        out.append(["sur_test", p])
+    for p in grid(T=[130, 300] if big else [130], N=[17, 33] if big else [17],
+                  bins=[17, 32]):
+        out.append(["clim_mi", p])
+    for p in grid(T=[130, 300] if big else [130], N=[17, 33] if big else
+                  [17]):
+        out.append(["clim_rain", p])
+    for p in grid(T=[130, 300] if big else [130], N=[4], tau_max=[5],
+                  est=["binning"], bins=[17, 32]):
+        out.append(["coupling", dict(p, which="mi")])
+    for p in grid(T=[130], N=[4], tau_max=[5]):
+        out.append(["coupling", dict(p, which="cc")])
+    for p in grid(n=[12, 23, 40] if big else [12], kind=["mixed", "cycle",
+                                                         "star"],
+                  directed=[0], w=[1]):
+        out.append(["network", p])
+    for p in grid(n=[182, 200] if big else [182], kind=["cycle"]):
+        out.append(["grid", dict(n=p["n"], dims=2)])
     return out
 
 
